@@ -224,3 +224,17 @@ Definition adds_overlapping (s : schema) (_ : list action) (a : action) : bool :
   | _ => false
   end.
 Definition known_C02_overlapping_merged (s : schema) (acts : list action) : bool := exists_step adds_overlapping s acts.
+
+(* ---- C02-check-survives-column-drop: DeleteColumn of a column an explicit CHECK mentions: the rebuild of DeleteColumn drops
+   the CHECK (delete_column.rs:139-150), drop_column_from_constraints keeps it (apply.rs:355-380, Check => true), so the
+   baseline believes in a CHECK over a missing column and the next rebuild of the table re-emits it *)
+Definition deletes_checked_column (s : schema) (_ : list action) (a : action) : bool :=
+  match a with
+  | DeleteColumn t c =>
+      match find_table t s with
+      | Some td => existsb (fun k => match k with CCheck _ e => check_mentions c e | _ => false end) (t_constraints td)
+      | None => false
+      end
+  | _ => false
+  end.
+Definition known_C02_check_survives_column_drop (s : schema) (acts : list action) : bool := exists_step deletes_checked_column s acts.
